@@ -206,6 +206,9 @@ def corpus_cases():
         # FIX tied to an init of a BLOCK (not on the header) and the block is unfixed / fixed again
         {"kind": "omega", "rec": "$OMEGA BLOCK(2)\n0.1\n0.01 (0.2 FIX)\n", "size": 2, "newcov": [0.1, 0.01, 0.2], "fixseq": [False, True, False], "same_values": True, "seed": 12},
         {"kind": "omega", "rec": "$SIGMA BLOCK(2) SD\n(FIX 0.1)\n0.001 0.2 ; RUV_X\n", "size": 2, "newcov": [0.04, 0.002, 0.09], "fixseq": [False], "same_values": False, "seed": 13},
+        # no-op update of CORR / SD CORR blocks keeps the written numbers (f0abfd5), also (v)xn
+        {"kind": "omega", "rec": "$OMEGA BLOCK(2) CORR\n2.25\n-.1 .25\n", "size": 2, "newcov": [2.25, -0.075, 0.25], "fixseq": [False], "same_values": True, "seed": 17},
+        {"kind": "omega", "rec": "$SIGMA BLOCK(3) SD CORR\n0.25\n(0.20)x2\n0.2 0.1 1.5\n", "size": 3, "newcov": [1, 0, 1, 0, 0, 1], "fixseq": [False], "same_values": True, "seed": 18},
         {"kind": "omega", "rec": "$OMEGA FIX BLOCK(2) 0.1 0.01 0.2 FIX\n", "size": 2, "newcov": [0.1, 0.01, 0.2], "fixseq": [False], "same_values": True, "seed": 14},
         {"kind": "diag", "rec": "$OMEGA (0.1)x2 0.3\n", "edits": [[{"fix": True}, {}, {}]], "remove": [], "seed": 10},
         {"kind": "diag", "rec": "$OMEGA DIAG(3) 0.1 0.2 SD 0.3 ; c\n", "edits": [[{}, {"init": 0.09}, {}]], "remove": [2], "seed": 11},
@@ -659,6 +662,7 @@ def run_omega_case(case, drv):
     cur = rec
     cov_old = [float(v) for v in inits]
     for step, newfix in enumerate(case.get("fixseq", [fixed])):
+        cov_prev = cov_old
         newcov = cov_old if (case.get("same_values") or step > 0) else case["newcov"]
         cov_old = newcov
         tags.append("op:block-" + ("fix" if newfix else "unfix"))
@@ -679,11 +683,20 @@ def run_omega_case(case, drv):
                     if [sig(v) for v in mv] != [sig(v) for v in raw2]:
                         k.append(f"OmegaRecord.update {case['rec']!r} -> {newcov}: model {mv} code {raw2}")
             # token level: values spelled as the code spells them, FIX handling, xn split
-            vals = [U.oparam_wire(v, newfix) for v in U.block_raw_values(newcov, case["size"], sd, corr)]
-            m = drv.ask(["bupdate", U.brec_wire(cur.root), vals, bool(newfix)])
+            ws, news, olds = U.block_update_args(cur, newcov, case["size"], sd, corr, newfix)
+            m = drv.ask(["bupdate", U.brec_wire(cur.root), ws, news, olds, bool(newfix)])
             want = ["ok", U.norm(U.brec_wire(upd.root))]
             if m != want:
                 k.append(f"OmegaRecord.update(BLOCK) {key + str(cur.root)!r} -> {newcov} fix={newfix}: model {_show(m)} code {_show(want)}")
+        # monitor: values that did not change keep the number written in the record (any scale)
+        if newcov is cov_prev:
+            before = [str(nd.subtree("init")) + (str(nd.subtree("n")) if nd.find("n") else "") for nd in cur.root.subtrees("omega")]
+            after = [str(nd.subtree("init")) + (str(nd.subtree("n")) if nd.find("n") else "") for nd in upd.root.subtrees("omega")]
+            if before != after:
+                # step 0: the parameters are exactly what the record reads as (a true no-op, must hold since f0abfd5);
+                # later steps: the record was written from these parameters before, its tokens read back an ulp away
+                cls = "omega-block-noop-respelled" if step == 0 else "omega-block-second-write-respelled"
+                mon.append({"cls": cls, "what": f"{key + str(cur.root)!r} updated with {'its own' if step == 0 else 'the same in-memory'} values writes {key + str(upd.root)!r}"})
         # monitor: read-back of the written block (values and fixedness)
         text = key + str(upd.root)
         try:
